@@ -17,10 +17,21 @@ def main():
         probs, n = dispatch.integral_data_symbolic(s, st)
         nruns += n
         chk.cases.append(f"integral_data{json.dumps(s)}")
+        if a.tier == "thorough" or sum(len(v) for v in s.values()) <= 2:
+            cp, cn = dispatch.integral_data_concrete(s)
+            chk.extra["integral_data_concrete_runs"] = chk.extra.get("integral_data_concrete_runs", 0) + cn
+            probs = probs + cp
         for kind, shape, combo, what in probs:
             if kind in seen:
                 continue
             seen.add(kind)
+            if kind == "not-executable":
+                chk.inconc(f"integral_data on symbolic ids: {what}")
+                continue
+            if kind == "concrete":
+                src = "#!/verif/.venv/bin/python\nimport sys\nsys.path[:0]=['/verif','/repo']\nfrom vlib import dispatch\np,_=dispatch.integral_data_concrete(%r)\nprint(p)\nsys.exit(1 if p else 0)\n" % (shape,)
+                chk.violation(f"integral_data:concrete:{json.dumps(shape)}", f"codegeneration.common.integral_data (unmodified, concrete ids) on stub FormIR {shape}: {what}", src)
+                continue
             # replay on the real pipeline before reporting
             rc = dispatch.replay_offsets() if kind in ("offsets", "count", "lost") else 1
             if rc:
